@@ -496,13 +496,22 @@ func C13(c *ev.Ctx) {
 		for i := 0; i < rounds; i++ {
 			var wg sync.WaitGroup
 			start := make(chan struct{})
+			// every other round the callers go through two FRESH DirFs instances on the same root (two programs, or two
+			// handles of one program, working on one directory tree)
+			inst := [2]filesys.Filesys{fsys, fsys}
+			var fresh []filesys.DirFs
+			if i%2 == 1 {
+				a, b := filesys.NewDirFs(root), filesys.NewDirFs(root)
+				inst = [2]filesys.Filesys{a, b}
+				fresh = []filesys.DirFs{a, b}
+			}
 			for g := range exts {
 				wg.Add(1)
 				go func(g int) {
 					defer wg.Done()
 					<-start
 					if catchPanic(func() {
-						fsys.AtomicCreate("d", fmt.Sprintf("t%d%s", i, exts[g]), acData(byte('a'+g), 30+(i*7+g*131)%5000))
+						inst[g%2].AtomicCreate("d", fmt.Sprintf("t%d%s", i, exts[g]), acData(byte('a'+g), 30+(i*7+g*131)%5000))
 					}) {
 						mu.Lock()
 						panics++
@@ -512,6 +521,9 @@ func C13(c *ev.Ctx) {
 			}
 			close(start)
 			wg.Wait()
+			for _, f := range fresh {
+				f.CloseFs()
+			}
 			for g := range exts {
 				nm := fmt.Sprintf("t%d%s", i, exts[g])
 				b, err := os.ReadFile(filepath.Join(root, "d", nm))
